@@ -960,3 +960,68 @@ def _says(test, pol, v):
     if isinstance(t, ast.BoolOp) and isinstance(t.op, ast.Or) and not pol:
         return any(_says(x, False, v) for x in t.values)
     return False
+
+
+_KEEPERS = {'append', 'appendleft', 'add', 'insert', 'put', 'put_nowait', 'heappush', 'insert_queue', 'extend', 'setdefault'}
+
+
+def no_reused_record(ctx, rule, prefixes, floor, why):
+    """A record that is handed to something that keeps it is a NEW object each time: a dict / list built once in front of a loop,
+    filled by item assignment inside the loop and, inside the same loop, appended / pushed / given to a callback parameter is ONE
+    object - every holder sees the fields of the last pass (seed C01-fb: `child_item = {'base_prob': ..}` hoisted in front of the
+    position loop of the restore walk, `child_item['pt'] = child; child_item['prob'] = ..; save_function(child_item)`: every restored
+    queue entry ends up with the pre-terminal and probability of its last sibling - order inversions, duplicates and losses after
+    a restore)."""
+    n = 0
+    bad = False
+    for rel, m in sorted(ctx.repo.modules.items()):
+        if not rel.startswith(tuple(prefixes)):
+            continue
+        for q_, fn in sorted(m.funcs.items()):
+            ps = set(params(fn))
+            for loop in walk_local(fn):
+                if not isinstance(loop, (ast.For, ast.While)):
+                    continue
+                n += 1
+                inside = {id(x) for st in loop.body for x in ast.walk(st)}
+                # locals built as containers outside this loop and never re-bound inside it
+                built = {}
+                for st in walk_local(fn):
+                    if isinstance(st, ast.Assign) and len(st.targets) == 1 and isinstance(st.targets[0], ast.Name):
+                        nm = st.targets[0].id
+                        if id(st) in inside:
+                            built[nm] = None if nm not in built or built[nm] is not None else None
+                            built[nm] = 'rebound'
+                        elif builds_mutable(st.value) and built.get(nm) != 'rebound':
+                            built[nm] = st
+                for nm, st0 in built.items():
+                    if st0 is None or st0 == 'rebound':
+                        continue
+                    writes = [x for x in walk_local(fn) if id(x) in inside and isinstance(x, ast.Assign)
+                              and any(isinstance(t, ast.Subscript) and isinstance(t.value, ast.Name) and t.value.id == nm for t in x.targets)]
+                    if not writes:
+                        continue
+                    for c in walk_local(fn):
+                        if id(c) not in inside or not isinstance(c, ast.Call):
+                            continue
+                        if not any(isinstance(a, ast.Name) and a.id == nm for a in c.args):
+                            continue
+                        name = call_name(c) or ''
+                        last = name.rpartition('.')[2]
+                        recursive_keep = False
+                        if last == q_.rpartition('.')[2]:
+                            # handed to the function itself: kept when the parameter it arrives in is given to a keeper / a callback
+                            plist = [p_ for p_ in params(fn) if p_ != 'self']
+                            idx = next((k for k, a in enumerate(c.args) if isinstance(a, ast.Name) and a.id == nm), None)
+                            pin = plist[idx] if idx is not None and idx < len(plist) else None
+                            recursive_keep = pin is not None and any(
+                                isinstance(c2, ast.Call) and ((call_name(c2) or '') in ps or (call_name(c2) or '').rpartition('.')[2] in _KEEPERS)
+                                and any(isinstance(a, ast.Name) and a.id == pin for a in c2.args) for c2 in walk_local(fn))
+                        if last in _KEEPERS or name in ps or recursive_keep:
+                            bad = True
+                            q = '%s::%s' % (rel, q_)
+                            ctx.stats['functions'].add(q)
+                            ctx.bad(rule, q, 'one %s (built before the loop: %s) is refilled and handed to %s on every pass'
+                                    % (nm, U(st0)[:40], name), why, None, c, firm=True)
+    if ctx.floor(rule, prefixes[0], n, floor, 'loops in %s' % ', '.join(prefixes)) and not bad:
+        ctx.ok(rule, prefixes[0], 'no container built before a loop is refilled inside it and handed to a keeper or a callback (%d loops)' % n)
